@@ -134,7 +134,7 @@ def c15(ctx):
         unfixed,
     ]
     outs = par(ctx, jobs)
-    caps = {0: 2500 if q else 0, 1: 2500 if q else 0, 3: 1500 if q else 0}
+    caps = {0: 3500 if q else 0, 1: 3000 if q else 0, 3: 2000 if q else 0}
     for i, bh in enumerate(outs[:7]):
         ctx.run_vh("shuffle", ["-in", bh, "-max", caps.get(i, 0)], binary=b)
     return ctx.finish(
@@ -150,7 +150,7 @@ def c15(ctx):
             "soundness of the shuffles is approached by the listed families of prover / man-in-the-middle strategies, not proved",
             "biffle and sequence shuffles choose their permutation themselves: the harness retries (<= 60 times) to obtain the permutation TLC asked for and otherwise continues with the library's choice (counted in extra)",
             "an output that is a valid permutation of re-encryptions but not the one the proof was made for (full swap, late re-randomisation) may be accepted or rejected; compared with the implementation-shaped layer as drift only",
-            "quick tier replays a (seed, suite)-dependent sample of 2500 of the pair-shuffle cases, 2500 of the simple-shuffle cases and 1500 of the sequence cases per suite; thorough replays all",
+            "quick tier replays a (seed, suite)-dependent sample of 3500 of the pair-shuffle cases, 3000 of the simple-shuffle cases and 2000 of the sequence cases per suite; thorough replays all",
         ], exhaustive=not q)
 
 
@@ -195,15 +195,15 @@ def c14(ctx):
         # change, the two no-knowledge forgers
         ex("mut", 3, both, "C14_mut") if q else ex("mut", 5, mini, "C14_mut"),
         # larger shapes (4 x 4 x 3 over 4 variables, 4 bases) by simulation
-        sim("sat", 40 if q else 800, "C14_sim_sat"),
-        sim("mut", 40 if q else 800, "C14_sim_mut"),
+        sim("sat", 60 if q else 800, "C14_sim_sat"),
+        sim("mut", 60 if q else 800, "C14_sim_mut"),
     ]
     if not q:   # trivial Or / And nodes kept ("full" wrapping) on the smaller universes
         jobs += [ex("sat", 5, both, "C14_sat_wraps"), ex("mut", 4, both, "C14_mut_wraps")]
     outs = par(ctx, jobs)
     tr = os.path.join(ctx.tmp, "sigma_ctx_calls.ndjson")
-    ctx.run_vh("sigma", ["-in", outs[0], "-max", 2500 if q else 40000, "-deniable", 5 if q else 4, "-trace", tr, "-tracemax", 150 if q else 2000], binary=b)
-    ctx.run_vh("sigma", ["-in", outs[1], "-max", 2500 if q else 40000, "-deniable", 5 if q else 4], binary=b)
+    ctx.run_vh("sigma", ["-in", outs[0], "-max", 4000 if q else 40000, "-deniable", 5 if q else 4, "-trace", tr, "-tracemax", 150 if q else 2000], binary=b)
+    ctx.run_vh("sigma", ["-in", outs[1], "-max", 4000 if q else 40000, "-deniable", 5 if q else 4], binary=b)
     tr2 = os.path.join(ctx.tmp, "sigma_ctx_calls_sim.ndjson")
     ctx.run_vh("sigma", ["-in", outs[2], "-max", 800 if q else 12000, "-deniable", 2, "-trace", tr2, "-tracemax", 60 if q else 600], binary=b)
     ctx.run_vh("sigma", ["-in", outs[3], "-max", 800 if q else 12000, "-deniable", 2], binary=b)
@@ -248,7 +248,7 @@ def c14(ctx):
             "every public point is defined from the model's secrets, so branch truth is decided by the model; a falsified point is an unrelated random point",
             "a verifier predicate that is a logically equivalent reordering is not judged; in the interactive protocol a verifier predicate implied by the proven one (last And-term dropped) is not judged (MustDen)",
             "SigmaTrace (commit-before-challenge, item kinds / counts, private randomness before the challenge) is extra coverage and never changes the exit status",
-            "TLC enumeration is exhaustive in both tiers; the replay is a (seed, suite)-dependent sample: quick 2500 behaviours per suite of each exhaustive set and 800 of each simulated set, thorough 40000 per suite of each exhaustive set and 12000 of each simulated / full-wrapping set",
+            "TLC enumeration is exhaustive in both tiers; the replay is a (seed, suite)-dependent sample: quick 4000 behaviours per suite of each exhaustive set and 800 of each simulated set, thorough 40000 per suite of each exhaustive set and 12000 of each simulated / full-wrapping set",
         ], exhaustive=False)
 
 
